@@ -69,6 +69,10 @@ InitBad == \E b \in BadOps : Start(PreText \o GoodPre \o b \o Probe, Ident)
 \* two operators with missing / ill-typed operands, a good show operator in between and the probes after them
 InitBad2 == \E b1 \in BadOps, b2 \in BadOps : Start(PreText \o GoodPre \o b1 \o <<Str(A), Op("Tj")>> \o b2 \o Probe, Ident)
 
+MixPoolAll == GPos \cup GSpace \cup GState \cup GPath \cup GPathCtm \cup GColor
+NoPool == {}
+InitMixed == Start(PreText, Ident)
+
 AllDevs == {"TcNotTrailing", "FormNoGsInherit", "CsNoColorReset", "LoneMoveShape"}
 DevRuns == {{}, AllDevs} \cup {{d} : d \in AllDevs}
 Ideal == {{}}
